@@ -14,6 +14,7 @@ mod c01;
 mod c04;
 mod c19;
 mod c20;
+mod c12;
 
 pub use util::*;
 
@@ -36,6 +37,7 @@ fn props() -> Vec<Prop> {
         Prop { id: "C07", run: c04::run_c07, gen: c04::gen_c07 },
         Prop { id: "C19", run: c19::run, gen: c19::gen },
         Prop { id: "C20", run: c20::run, gen: c20::gen },
+        Prop { id: "C12", run: c12::run, gen: c12::gen },
     ]
 }
 
